@@ -87,6 +87,7 @@ type vOp struct {
 	Price  uint64 `json:"price,omitempty"`
 	Active bool   `json:"active,omitempty"`
 	L      int    `json:"l,omitempty"` // index into cfg.Lockers
+	Q      int    `json:"q,omitempty"` // vault messages: 1 + index of ANOTHER product named in the message instead of the vault's own (0: consistent)
 }
 
 type vCase struct {
@@ -611,6 +612,17 @@ func (m *vMachine) genOp(rt *rapid.T, i int) vOp {
 		}
 		op.A = clampPos(a).String()
 	}
+	switch k {
+	case "deposit", "withdraw", "draw", "repay", "close", "depdraw":
+		// a message is free to name a product other than the one its vault belongs to
+		if len(cfg.Products) > 1 && rapid.IntRange(0, 11).Draw(rt, lbl("otherproduct")) == 0 {
+			q := rapid.IntRange(0, len(cfg.Products)-2).Draw(rt, lbl("q"))
+			if q >= op.P {
+				q++
+			}
+			op.Q = q + 1
+		}
+	}
 	return op
 }
 
@@ -700,21 +712,25 @@ func (m *vMachine) apply(i int, op vOp) {
 	if op.A != "" {
 		amt = mustInt(op.A)
 	}
+	named := p.ID // the product the message names
+	if op.Q > 0 && op.Q-1 < len(cfg.Products) {
+		named = m.product(op.Q - 1).ID
+	}
 	switch op.K {
 	case "create":
 		msg = vaulttypes.NewMsgCreateRequest(from, app, p.ID, amt, mustInt(op.B))
 	case "deposit":
-		msg = vaulttypes.NewMsgDepositRequest(from, app, p.ID, before.vault.Id, amt)
+		msg = vaulttypes.NewMsgDepositRequest(from, app, named, before.vault.Id, amt)
 	case "withdraw":
-		msg = vaulttypes.NewMsgWithdrawRequest(from, app, p.ID, before.vault.Id, amt)
+		msg = vaulttypes.NewMsgWithdrawRequest(from, app, named, before.vault.Id, amt)
 	case "draw":
-		msg = vaulttypes.NewMsgDrawRequest(from, app, p.ID, before.vault.Id, amt)
+		msg = vaulttypes.NewMsgDrawRequest(from, app, named, before.vault.Id, amt)
 	case "repay":
-		msg = vaulttypes.NewMsgRepayRequest(from, app, p.ID, before.vault.Id, amt)
+		msg = vaulttypes.NewMsgRepayRequest(from, app, named, before.vault.Id, amt)
 	case "close":
-		msg = vaulttypes.NewMsgLiquidateRequest(from, app, p.ID, before.vault.Id)
+		msg = vaulttypes.NewMsgLiquidateRequest(from, app, named, before.vault.Id)
 	case "depdraw":
-		msg = vaulttypes.NewMsgDepositAndDrawRequest(from, app, p.ID, before.vault.Id, amt)
+		msg = vaulttypes.NewMsgDepositAndDrawRequest(from, app, named, before.vault.Id, amt)
 	case "intcalc":
 		msg = vaulttypes.NewMsgVaultInterestCalcRequest(from, app, before.vault.Id)
 	case "smcreate":
@@ -734,6 +750,17 @@ func (m *vMachine) apply(i int, op vOp) {
 			e = e[:60]
 		}
 		m.r.Class("err:" + op.K + ":" + e)
+	}
+	if named != p.ID {
+		// the per-message oracles below assume a message that names the vault's own product; for the others only
+		// the invariants over custody and the published totals are judged
+		if ok {
+			m.r.Class("message-naming-another-product:accepted:" + op.K)
+		} else {
+			m.r.Class("message-naming-another-product:refused")
+		}
+		m.invariants(i, op)
+		return
 	}
 	after := m.snap(op.U, p, op.P)
 	if ok {
